@@ -16,7 +16,7 @@ def pad_head(first, fixed, where, target, marker):
     if where == 'both' and need > 0:
         # neither the first line nor the field block alone reaches the limit; together they do
         parts = first.split(' ')
-        half = need // 2
+        half = min(need // 2, 3400)
         parts[1] = parts[1] + '?' + 'q' * max(0, half - 1)
         first = ' '.join(parts)
         rest = target - size(first, fields)
@@ -107,7 +107,7 @@ def run(ctx):
     ctx.log('TLC: %d states, %d scenario classes' % (res.distinct, len(scens)))
     scens.sort(key=lambda c: json.dumps(c, sort_keys=True))
     out = []
-    for limit in (4096, 65536):
+    for limit in (4096, 8192, 65536):
         part = [s for s in scens if s['par']['limit'] == limit]
         sq = squidctl.Squid(ctx, tree, name='c62-%d' % limit, clock=False,
                             conf_extra='request_header_max_size %d bytes\nreply_header_max_size %d bytes\nclient_request_buffer_max_size 512 KB\n' % (limit, limit))
